@@ -32,6 +32,7 @@ struct Dom
         int ntracks = 0;
     };
     static void init(Model&, World&) {}
+    static void visit(World&, Model&, const std::string&, Agg&) {}
     static std::string key_extra(const Model&) { return ""; }
     static std::vector<std::string> seeds(eng::engine_schema)
     {
